@@ -28,6 +28,8 @@ type docCase struct {
 	Runs [][]docHop `json:"runs"`
 	RTTs []float64  `json:"rtts"`
 	Perm []int      `json:"perm,omitempty"`
+	// SkipPrivate: finish the document the way RunTraceroute does with SkipPrivateHops (Normalize, then RemovePrivateHops)
+	SkipPrivate bool `json:"skip_private,omitempty"`
 }
 
 func ipOf(spec string) net.IP {
@@ -106,6 +108,7 @@ func genDoc(t *rapid.T) *docCase {
 	if ns > 1 {
 		c.Perm = rapid.Permutation(seq(ns)).Draw(t, "perm")
 	}
+	c.SkipPrivate = rapid.Bool().Draw(t, "skip_private")
 	return c
 }
 
@@ -166,6 +169,19 @@ func checkC16(t *testing.T, c *docCase, rec *Recorder) []Diff {
 			has := c.Runs[i][j].Addr != ""
 			if h.Reachable != has {
 				add("reachable", "run %d hop %d: reachable=%v but address %q", i, j, h.Reachable, c.Runs[i][j].Addr)
+			}
+		}
+	}
+	if c.SkipPrivate {
+		// the finished document of a request with SkipPrivateHops: same relation on what is left
+		r.RemovePrivateHops()
+		for i, run := range r.Traceroute.Runs {
+			for j, h := range run.Hops {
+				if h == nil {
+					add("nil-hop", "run %d hop %d is nil after private hops were blanked", i, j)
+				} else if h.Reachable != (len(h.IPAddress) > 0) {
+					add("reachable", "run %d hop %d after private hops were blanked: reachable=%v, address %q", i, j, h.Reachable, h.IPAddress)
+				}
 			}
 		}
 	}
